@@ -18,7 +18,8 @@ def main():
     I = Interp(repo, DB)
     pats = sys.argv[1:]
     verbose = "-v" in pats
-    pats = [p for p in pats if p != "-v"]
+    only = [p[7:] for p in pats if p.startswith("--only=")]
+    pats = [p for p in pats if p != "-v" and not p.startswith("--only=")]
     tot = bad = 0
     for key, c in sorted(list(DB.contracts.items()) + list(DB.variants.items())):
         if pats and not any(p in key for p in pats):
@@ -41,12 +42,13 @@ def main():
                 print("   ERROR:", res.error)
                 bad += 1
             t0 = time.time()
-            todo = [(i, ob) for i, ob in enumerate(res.obligations) if not ob.meta.get("trivial")]
+            todo = [(i, ob) for i, ob in enumerate(res.obligations) if not ob.meta.get("trivial")
+                    and (not only or any(o in ob.name for o in only))]
             out = {}
             import multiprocessing as mp
             def work(k):
                 i, ob = todo[k]
-                return solve.decide(ob, res.str_axioms, 10000, True, name="%d:%s" % (i, ob.name))[:6]
+                return solve.decide(ob, res.str_axioms, 30000, True, name="%d:%s" % (i, ob.name))[:6]
             main.work = work
             if len(todo) > 4:
                 with mp.get_context("fork").Pool(16) as pool:
